@@ -12,6 +12,11 @@ VEST_NOTE = ("Bounds: 6 addresses (two funded owners, two fresh recipients, one 
              "<= 2 (quick) / 3 (thorough) messages interleaved with time steps 0..4/6; amounts <= 40 so the P=100 model arithmetic equals the 18-digit code. "
              "Messages are delivered like baseapp.runTx without ante handler. TLC, the Json module and the harness projection are trusted.")
 TEXT = {
+    "C15": {
+        "technique": "TLA+ spec Signature.tla with abstract cryptography (WriteOnce action property, VerifySound invariant checked by TLC); every publish / store / verify transition replayed on the real handlers with generated ECDSA P-256 and RSA-2048 certificates, every single-field mutation of a valid record, and publish/store sequences on equal keys",
+        "level": "Model checking of all message sequences (<= 3/4 messages) over 2 addresses x 2 reference ids x 2 links x 22 signature-record variants, with conformance of the real verification verdict, the echoed fields (compared with the raw stored record) and the raw link / signature store after every transition; the write-once predicate is evaluated directly on the real store around every message.",
+        "note": "Cryptography is abstract in the model (soundness relative to Go's crypto/x509). The application does not register the cfesignature Msg service with the router, so the handlers are driven through keeper.NewMsgServerImpl. TLC, the Json module and the harness projection are trusted.",
+    },
     "C05": {
         "technique": "TLA+ spec Vesting.tla: TLC checks C05_Backed / C05_Bounds / Rejected on every reachable state and transition; every model transition replayed on the real message router with module balance, every pool counter and the module's registered invariants compared after each message",
         "level": "Model checking of all message interleavings within bounds plus conformance of the real handlers on every enumerated transition (accept/reject, pool counters, module balance, balances); rejected messages are checked to leave the complete real projection unchanged.",
